@@ -256,3 +256,250 @@ Qed.
 Lemma args_parses_lemma : forall ws its, items false ws = Some its -> exists rest named pos bools,
   parse_args ws = AOk rest named pos bools.
 Proof. intros ws its I. unfold parse_args. rewrite (pf_items _ _ I). eauto. Qed.
+
+(* ---- positional arguments ---------------------------------------------------------------------- *)
+Definition pentry := (posflag * str)%type.
+Definition canonA (P : list pentry) : list (option str) :=
+  map (fun e : pentry => match fst e with PArgs => Some (snd e) | PJSONArgs => None end) P.
+Definition canonJ (P : list pentry) : list (option str) :=
+  map (fun e : pentry => match fst e with PJSONArgs => Some (snd e) | PArgs => None end) P.
+Definition to_aval (e : pentry) : aval :=
+  match fst e with PArgs => AStr (snd e) | PJSONArgs => AJson (snd e) end.
+Definition is_flag (f : posflag) (e : pentry) : Prop := fst e = f.
+
+Definition pos_inv (s : pstate) (P : list pentry) : Prop :=
+  match p_pos s with
+  | None => p_args s = [] /\ p_jargs s = [] /\ P = []
+  | Some PArgs => p_args s = canonA P /\ exists k, (k <= List.length P)%nat
+                  /\ p_jargs s = firstn k (canonJ P) /\ Forall (is_flag PArgs) (skipn k P)
+  | Some PJSONArgs => p_jargs s = canonJ P /\ exists k, (k <= List.length P)%nat
+                  /\ p_args s = firstn k (canonA P) /\ Forall (is_flag PJSONArgs) (skipn k P)
+  end.
+
+Lemma firstn_app_le : forall (X : Type) k (l x : list X), (k <= List.length l)%nat -> firstn k (l ++ x) = firstn k l.
+Proof.
+  intros. rewrite firstn_app. replace (k - List.length l)%nat with 0%nat by lia.
+  cbn. now rewrite app_nil_r.
+Qed.
+
+Lemma skipn_app_le : forall (X : Type) k (l x : list X), (k <= List.length l)%nat -> skipn k (l ++ x) = skipn k l ++ x.
+Proof.
+  intros. rewrite skipn_app. replace (k - List.length l)%nat with 0%nat by lia. reflexivity.
+Qed.
+
+Lemma canonJ_allA : forall Q, Forall (is_flag PArgs) Q -> canonJ Q = repeat None (List.length Q).
+Proof.
+  induction Q as [|[f w] Q IH]; intros H; [reflexivity|]. inversion H; subst.
+  unfold is_flag in H2. cbn in H2. subst f. cbn. f_equal. now apply IH.
+Qed.
+
+Lemma canonA_allJ : forall Q, Forall (is_flag PJSONArgs) Q -> canonA Q = repeat None (List.length Q).
+Proof.
+  induction Q as [|[f w] Q IH]; intros H; [reflexivity|]. inversion H; subst.
+  unfold is_flag in H2. cbn in H2. subst f. cbn. f_equal. now apply IH.
+Qed.
+
+Lemma pad_canonJ : forall P k, (k <= List.length P)%nat -> Forall (is_flag PArgs) (skipn k P) ->
+  pad_to (List.length (canonA P)) (firstn k (canonJ P)) = canonJ P.
+Proof.
+  intros P k L F. unfold pad_to. unfold canonA at 1. rewrite map_length.
+  rewrite firstn_length. unfold canonJ at 2. rewrite map_length. rewrite Nat.min_l by exact L.
+  rewrite <- (firstn_skipn k (canonJ P)) at 2. f_equal.
+  unfold canonJ at 1. rewrite skipn_map. fold (canonJ (skipn k P)).
+  rewrite canonJ_allA by exact F. rewrite skipn_length. reflexivity.
+Qed.
+
+Lemma pad_canonA : forall P k, (k <= List.length P)%nat -> Forall (is_flag PJSONArgs) (skipn k P) ->
+  pad_to (List.length (canonJ P)) (firstn k (canonA P)) = canonA P.
+Proof.
+  intros P k L F. unfold pad_to. unfold canonJ at 1. rewrite map_length.
+  rewrite firstn_length. unfold canonA at 2. rewrite map_length. rewrite Nat.min_l by exact L.
+  rewrite <- (firstn_skipn k (canonA P)) at 2. f_equal.
+  unfold canonA at 1. rewrite skipn_map. fold (canonA (skipn k P)).
+  rewrite canonA_allJ by exact F. rewrite skipn_length. reflexivity.
+Qed.
+
+Lemma pad_self : forall l, pad_to (List.length l) l = l.
+Proof. intros. unfold pad_to. rewrite Nat.sub_diag. cbn. apply app_nil_r. Qed.
+
+Definition seen (s : pstate) : bool := match p_rest s with [] => false | _ => true end.
+
+Lemma pos_step : forall its s P, pos_inv s P ->
+  exists P', pos_inv (fold_left apply_item its s) P'
+   /\ map to_aval P' = map to_aval P ++ positional_spec (seen s) (p_pos s) its
+   /\ p_rest (fold_left apply_item its s) = p_rest s ++ rest_spec (seen s) (p_pos s) its.
+Proof.
+  induction its as [|it its IH]; intros s P INV.
+  - exists P. cbn. rewrite !app_nil_r. auto.
+  - cbn [fold_left]. destruct it as [f k v|f|w|w].
+    + (* map flag: untouched *)
+      assert (E : pos_inv (apply_item s (IMap f k v)) P
+                  /\ seen (apply_item s (IMap f k v)) = seen s
+                  /\ p_pos (apply_item s (IMap f k v)) = p_pos s
+                  /\ p_rest (apply_item s (IMap f k v)) = p_rest s).
+      { cbn [apply_item]. destruct (existsb (str_eqb k) (p_keys s)); auto. }
+      destruct E as [E1 [E2 [E3 E4]]]. destruct (IH _ _ E1) as [P' [A [B C]]].
+      exists P'. rewrite E2, E3, E4 in *. auto.
+    + (* --args / --jsonargs *)
+      set (s' := apply_item s (IPos f)).
+      assert (E : pos_inv s' P /\ seen s' = seen s /\ p_pos s' = Some f /\ p_rest s' = p_rest s).
+      { subst s'. unfold pos_inv in INV |- *. cbn [apply_item].
+        destruct (p_pos s) as [[]|] eqn:PP; destruct f;
+          cbn [set_pos_list pos_list p_args p_jargs p_pos p_rest p_keys p_maps p_bools]; unfold seen;
+          cbn [set_pos_list pos_list p_args p_jargs p_pos p_rest p_keys p_maps p_bools].
+        - (* args -> args *) rewrite pad_self. repeat split; try tauto.
+        - (* args -> jsonargs *)
+          destruct INV as [A [k [L [J F]]]]. rewrite A, J, pad_canonJ by assumption.
+          repeat split. exists (List.length P). repeat split; [lia | | ].
+          + rewrite firstn_all2; [reflexivity | unfold canonA; rewrite map_length; lia].
+          + rewrite skipn_all. constructor.
+        - (* jsonargs -> args *)
+          destruct INV as [J [k [L [A F]]]]. rewrite A, J, pad_canonA by assumption.
+          repeat split. exists (List.length P). repeat split; [lia | | ].
+          + rewrite firstn_all2; [reflexivity | unfold canonJ; rewrite map_length; lia].
+          + rewrite skipn_all. constructor.
+        - (* jsonargs -> jsonargs *) rewrite pad_self. repeat split; try tauto.
+        - destruct INV as [A [J ->]]. rewrite A, J. repeat split. exists 0%nat. cbn. repeat split; auto.
+        - destruct INV as [A [J ->]]. rewrite A, J. repeat split. exists 0%nat. cbn. repeat split; auto. }
+      destruct E as [E1 [E2 [E3 E4]]]. destruct (IH _ _ E1) as [P' [A [B C]]].
+      exists P'. rewrite E2, E3, E4 in *. cbn [positional_spec rest_spec]. auto.
+    + (* boolean flag *)
+      destruct (IH (apply_item s (IBool w)) P INV) as [P' [A [B C]]]. exists P'. auto.
+    + (* plain word *)
+      cbn [apply_item]. unfold plain_word.
+      destruct (p_pos s) as [f|] eqn:PP; [destruct (p_rest s) as [|q rest] eqn:PR|].
+      * (* the query *)
+        set (s' := mkp ([] ++ [w]) (p_keys s) (p_maps s) (p_args s) (p_jargs s) (Some f) (p_bools s)).
+        assert (E1 : pos_inv s' P) by (unfold pos_inv in INV |- *; subst s'; cbn; rewrite PP in INV; exact INV).
+        destruct (IH _ _ E1) as [P' [A [B C]]]. exists P'. split; [exact A|].
+        unfold seen. rewrite PR. cbn [positional_spec rest_spec].
+        replace (match f with PArgs | _ => positional_spec true (Some f) its end)
+          with (positional_spec true (Some f) its) by (destruct f; reflexivity).
+        split; [exact B|]. rewrite C. reflexivity.
+      * (* a positional value *)
+        set (s' := set_pos_list s f (pos_list s f ++ [Some w])).
+        assert (E : pos_inv s' (P ++ [(f, w)]) /\ seen s' = true /\ p_pos s' = Some f /\ p_rest s' = p_rest s).
+        { subst s'. unfold pos_inv in INV |- *. rewrite PP in INV.
+          destruct f; cbn [set_pos_list pos_list p_args p_jargs p_pos p_rest p_keys p_maps p_bools]; rewrite PP; unfold seen;
+          cbn [set_pos_list pos_list p_args p_jargs p_pos p_rest p_keys p_maps p_bools]; rewrite PR.
+          - destruct INV as [A [k [L [J F]]]]. repeat split.
+            + rewrite A. unfold canonA. rewrite map_app. reflexivity.
+            + exists k. rewrite app_length. repeat split; [lia | | ].
+              * rewrite J. unfold canonJ. rewrite map_app. rewrite firstn_app_le; [reflexivity | rewrite map_length; exact L].
+              * rewrite skipn_app_le by exact L. apply Forall_app. split; [exact F | repeat constructor].
+          - destruct INV as [J [k [L [A F]]]]. repeat split.
+            + rewrite J. unfold canonJ. rewrite map_app. reflexivity.
+            + exists k. rewrite app_length. repeat split; [lia | | ].
+              * rewrite A. unfold canonA. rewrite map_app. rewrite firstn_app_le; [reflexivity | rewrite map_length; exact L].
+              * rewrite skipn_app_le by exact L. apply Forall_app. split; [exact F | repeat constructor]. }
+        destruct E as [E1 [E2 [E3 E4]]]. destruct (IH _ _ E1) as [P' [A [B C]]].
+        exists P'. split; [exact A|]. rewrite E2, E3, E4 in *. unfold seen. rewrite PR.
+        cbn [positional_spec rest_spec]. rewrite map_app in B. cbn [map] in B. rewrite <- app_assoc in B.
+        split; [|rewrite PR in C; exact C].
+        rewrite B. destruct f; reflexivity.
+      * (* no positional flag yet: query or file operand *)
+        set (s' := mkp (p_rest s ++ [w]) (p_keys s) (p_maps s) (p_args s) (p_jargs s) None (p_bools s)).
+ assert (E1 : pos_inv s' P) by (unfold pos_inv in INV |- *; subst s'; cbn; rewrite PP in INV; exact INV).
+        destruct (IH _ _ E1) as [P' [A [B C]]]. exists P'. split; [exact A|].
+        assert (S' : seen s' = true) by (subst s'; unfold seen; cbn; destruct (p_rest s); reflexivity).
+        rewrite S' in *. cbn [p_pos s'] in *. cbn [positional_spec rest_spec].
+        replace (match seen s with true | _ => positional_spec true None its end)
+          with (positional_spec true None its) by (destruct (seen s); reflexivity).
+        split; [exact B|]. rewrite C. subst s'. cbn [p_rest]. rewrite <- app_assoc. reflexivity.
+Qed.
+
+(* ---- the merge of opts.Args and opts.JSONArgs --------------------------------------------------- *)
+Fixpoint zmerge (pos : list (option aval)) (j : list (option str)) : list (option aval) :=
+  match pos, j with
+  | p :: pr, v :: jr => (match v with Some t => Some (AJson t) | None => p end) :: zmerge pr jr
+  | pr, [] => pr
+  | [], v :: jr => (match v with Some t => [Some (AJson t)] | None => [] end) ++ zmerge [] jr
+  end.
+
+Lemma set_nth_app : forall (X : Type) (pre : list X) x p pr,
+  set_nth (List.length pre) x (pre ++ p :: pr) = pre ++ x :: pr.
+Proof. induction pre as [|y pre IH]; intros; cbn; [reflexivity | now rewrite IH]. Qed.
+
+Lemma merge_loop_zmerge : forall j pre post i,
+  (List.length pre = i \/ (post = [] /\ (List.length pre <= i)%nat)) ->
+  merge_loop i j (pre ++ post) = pre ++ zmerge post j.
+Proof.
+  induction j as [|v jr IH]; intros pre post i H.
+  - cbn. destruct post; reflexivity.
+  - cbn [merge_loop]. destruct post as [|p pr].
+    + (* only appends from here on *)
+      rewrite app_nil_r. assert (L : (List.length pre <= i)%nat) by (destruct H as [H|[_ H]]; lia).
+      destruct v as [t|].
+      * replace (i <? List.length pre)%nat with false by (symmetry; apply Nat.ltb_ge; exact L).
+        rewrite <- (app_nil_r (pre ++ [Some (AJson t)])). rewrite IH.
+        -- cbn [zmerge]. rewrite <- app_assoc. reflexivity.
+        -- right. split; [reflexivity|]. rewrite app_length. cbn. lia.
+      * rewrite <- (app_nil_r pre) at 1. rewrite IH by (right; split; [reflexivity | lia]).
+        reflexivity.
+    + destruct H as [H|[H _]]; [|discriminate]. subst i. destruct v as [t|].
+      * replace (List.length pre <? List.length (pre ++ p :: pr))%nat with true
+          by (symmetry; apply Nat.ltb_lt; rewrite app_length; cbn; lia).
+        rewrite set_nth_app.
+        change (pre ++ Some (AJson t) :: pr) with (pre ++ [Some (AJson t)] ++ pr).
+        rewrite app_assoc. rewrite IH by (left; rewrite app_length; cbn; lia).
+        cbn [zmerge]. rewrite <- app_assoc. reflexivity.
+      * change (pre ++ p :: pr) with (pre ++ [p] ++ pr).
+        rewrite app_assoc. rewrite IH by (left; rewrite app_length; cbn; lia).
+        cbn [zmerge]. rewrite <- app_assoc. reflexivity.
+Qed.
+
+Lemma zmerge_A : forall P k, (k <= List.length P)%nat -> Forall (is_flag PArgs) (skipn k P) ->
+  zmerge (map (option_map AStr) (canonA P)) (firstn k (canonJ P)) = map Some (map to_aval P).
+Proof.
+  induction P as [|[f w] P IH]; intros k L F.
+  - destruct k; reflexivity.
+  - destruct k as [|k].
+    + cbn [firstn]. cbn [skipn] in F.
+      assert (E : forall Q, Forall (is_flag PArgs) Q ->
+                  zmerge (map (option_map AStr) (canonA Q)) [] = map Some (map to_aval Q)).
+      { clear. induction Q as [|[f w] Q IH]; intros H; [reflexivity|]. inversion H; subst.
+        unfold is_flag in H2. cbn in H2. subst f.
+        specialize (IH H3). cbn in *. destruct (map (option_map AStr) (canonA Q)); rewrite <- IH; reflexivity. }
+      apply E, F.
+    + cbn [List.length] in L. cbn [skipn] in F. specialize (IH k (le_S_n _ _ L) F).
+      destruct f; cbn; rewrite <- IH; reflexivity.
+Qed.
+
+Lemma zmerge_J : forall P k, (k <= List.length P)%nat -> Forall (is_flag PJSONArgs) (skipn k P) ->
+  zmerge (map (option_map AStr) (firstn k (canonA P))) (canonJ P) = map Some (map to_aval P).
+Proof.
+  induction P as [|[f w] P IH]; intros k L F.
+  - destruct k; reflexivity.
+  - destruct k as [|k].
+    + cbn [firstn map]. cbn [skipn] in F.
+      assert (E : forall Q, Forall (is_flag PJSONArgs) Q ->
+                  zmerge [] (canonJ Q) = map Some (map to_aval Q)).
+      { clear. induction Q as [|[f w] Q IH]; intros H; [reflexivity|]. inversion H; subst.
+        unfold is_flag in H2. cbn in H2. subst f. specialize (IH H3). cbn in *. now rewrite IH. }
+      apply E, F.
+    + cbn [List.length] in L. cbn [skipn] in F. specialize (IH k (le_S_n _ _ L) F).
+      destruct f; cbn; rewrite <- IH; reflexivity.
+Qed.
+
+Lemma positional_of_inv : forall s P, pos_inv s P -> positional_of s = map Some (map to_aval P).
+Proof.
+  intros s P INV. unfold positional_of.
+  rewrite <- (app_nil_l (map (option_map AStr) (p_args s))).
+  rewrite merge_loop_zmerge by (left; reflexivity). cbn [app].
+  unfold pos_inv in INV. destruct (p_pos s) as [[]|].
+  - destruct INV as [A [k [L [J F]]]]. rewrite A, J. now apply zmerge_A.
+  - destruct INV as [J [k [L [A F]]]]. rewrite A, J. now apply zmerge_J.
+  - destruct INV as [A [J ->]]. rewrite A, J. reflexivity.
+Qed.
+
+Lemma args_positional_lemma : forall ws its rest named pos bools,
+  items false ws = Some its -> parse_args ws = AOk rest named pos bools ->
+  pos = map Some (positional_spec false None its) /\ rest = rest_spec false None its.
+Proof.
+  intros ws its rest named pos bools I P. unfold parse_args in P.
+  rewrite (pf_items _ _ I) in P. inversion P; subst. clear P.
+  assert (INV0 : pos_inv p0 []) by (cbn; auto).
+  destruct (pos_step its p0 [] INV0) as [P' [A [B C]]].
+  cbn in B, C. split; [|exact C].
+  rewrite (positional_of_inv _ _ A). now rewrite B.
+Qed.
